@@ -49,7 +49,8 @@ func concPhase(r *vf.Run) {
 	work, ram, done := recfs.RamDir(r.Scratch)
 	defer done()
 	r.Set("concurrent_scratch_on_tmpfs", ram)
-	n := r.N(40, 700)
+	r.Set("concurrent_phase_ran_in_race_build", r.RaceBuild)
+	n := r.N(40, 300)
 	for i := 0; i < n && r.Violations() <= 20; i++ {
 		runConc(r, work, i)
 		if i%20 == 19 {
